@@ -7,6 +7,7 @@ import (
 	"regexp"
 	"strconv"
 	"strings"
+	"unicode/utf16"
 )
 
 // Structured descriptions of gopki configuration files. The reference model
@@ -68,6 +69,7 @@ type EntitySpec struct {
 
 	Format string `json:"format,omitempty"` // yaml (default) | json
 	Style  int    `json:"style,omitempty"`  // rendering variation: key order, comments, indent
+	Enc    string `json:"enc,omitempty"`    // utf16le | utf16be (YAML text, with byte order mark) | esc (JSON with \u-escaped key names)
 	Bulk   int    `json:"bulk,omitempty"`   // KiB of meaning-free padding (YAML comment block / JSON white space) in front of one top-level key
 }
 
@@ -569,7 +571,38 @@ func (e *EntitySpec) Doc() OM {
 	return top
 }
 
+// Render: the configuration file's bytes.
 func (e *EntitySpec) Render() []byte {
+	b := e.renderText()
+	f := e.Format
+	if f == "" {
+		f = "yaml"
+	}
+	switch {
+	case (e.Enc == "utf16le" || e.Enc == "utf16be") && f == "yaml":
+		// the same YAML text as UTF-16 with a byte order mark (what some Windows editors save)
+		out := []byte{0xff, 0xfe}
+		if e.Enc == "utf16be" {
+			out = []byte{0xfe, 0xff}
+		}
+		for _, u := range utf16.Encode([]rune(string(b))) {
+			if e.Enc == "utf16be" {
+				out = append(out, byte(u>>8), byte(u))
+			} else {
+				out = append(out, byte(u), byte(u>>8))
+			}
+		}
+		return out
+	case e.Enc == "esc" && f == "json":
+		// the same JSON with key names spelled through \u escapes
+		for _, k := range []string{"version", "issuer", "alias", "subject"} {
+			b = bytes.ReplaceAll(b, []byte(`"`+k+`"`), []byte(`"\u00`+fmt.Sprintf("%02x", k[0])+k[1:]+`"`))
+		}
+	}
+	return b
+}
+
+func (e *EntitySpec) renderText() []byte {
 	f := e.Format
 	if f == "" {
 		f = "yaml"
